@@ -254,6 +254,80 @@ def unit_stage(ck, lower_exe, work, nfuncs, always):
     return diffs, total, kinds
 
 
+def Prog_like(P, names):
+    """text of a module with the protos/imports of P and only the named functions"""
+    Q = mirgen.Prog(P.name)
+    Q.protos, Q.imports = set(P.protos), set(P.imports)
+    Q.funcs = [f for f in P.funcs if f[0] in names]
+    return Q.text()
+
+
+def bracket_compare(lower_exe, work, text, always):
+    """-> list of (callee, model tuple, bstart, bend) that differ, for a module of v/w pairs as text"""
+    path = os.path.join(work, "brk_replay.mir")
+    with open(path, "w") as f:
+        f.write(text)
+    rc, out, err = run([lower_exe, path], timeout=120)
+    rc2, out2, err2 = run([DRV], inp=c04_gen.to_lean(c04_gen.TextProg(text)) + f"allocafeat {always}\n", timeout=120)
+    res = []
+    for mm in re.finditer(r"A (\S+)_v(\d+) top=(\S+) used=(\d) nontop=(\d) brackets=(\d)", out2):
+        w = f"{mm.group(1)}_w{mm.group(2)}"
+        blk = out.split(f"F {w}\n")[1].split("endfunc")[0] if f"F {w}\n" in out else ""
+        nb, ne = len(re.findall(r"\n\s*bstart\s", blk)), len(re.findall(r"\n\s*bend\s", blk))
+        if nb != int(mm.group(6)) or ne != int(mm.group(6)):
+            res.append((f"{mm.group(1)}_v{mm.group(2)}", mm.group(0), nb, ne))
+    return res
+
+
+def bracket_stage(ck, lower_exe, work, npairs, always):
+    """unit tie for the stack bracket: number of bstart/bend the real link puts into the caller vs
+    `inlineBrackets (simplifyFunc callee)` of the Lean model of func_alloca_features"""
+    nmod = max(1, npairs // 100)
+    total, kinds, diffs = 0, {}, []
+    for m in range(nmod):
+        P, pairs, kd = c04_unit.gen_bracket_module(ck.rng, f"b{m}", npairs // nmod)
+        for k, v in kd.items():
+            kinds[k] = kinds.get(k, 0) + v
+        path = os.path.join(work, P.name + ".mir")
+        with open(path, "w") as f:
+            f.write(P.text())
+        rc, out, err = run([lower_exe, path], timeout=120)
+        rc2, out2, err2 = run([DRV], inp=c04_gen.to_lean(P) + f"allocafeat {always}\n", timeout=120)
+        if rc != 0 or rc2 != 0:
+            ck.broken_ties.append({"kind": "harness-run", "name": "bracket stage", "log": (out[-300:] + err[-300:] + err2[-300:])})
+            continue
+        body, cur = {}, None
+        for l in out.split("\n"):
+            if l.startswith("F "):
+                cur = l[2:].strip(); body[cur] = []
+            elif cur:
+                body[cur].append(l)
+        model = {}
+        for l in out2.split("\n"):
+            mm = re.match(r"A (\S+) top=(\S+) used=(\d) nontop=(\d) brackets=(\d)", l)
+            if mm:
+                model[mm.group(1)] = (mm.group(2), int(mm.group(3)), int(mm.group(4)), int(mm.group(5)))
+        for v, w in pairs:
+            total += 1
+            lines = body.get(w, [])
+            nb = sum(1 for l in lines if re.match(r"\s*bstart\s", l))
+            ne = sum(1 for l in lines if re.match(r"\s*bend\s", l))
+            inlined = not any(re.match(r"\s*(call|inline)\s+\w+, " + v + ",", l) for l in lines)
+            exp = model.get(v, (None, 0, 0, -1))[3]
+            if not inlined or nb != exp or ne != exp:
+                src = [x for x in P.funcs if x[0] == v][0]
+                mini = Prog_like(P, [v, w])
+                diffs.append({"mir": mini, "callee": v, "callee_source": [mirgen.fmt_insn(i) for i in src[3]], "model (top,used,nontop,brackets)": model.get(v),
+                              "library_caller_after_link": [l for l in lines if l.strip()][:60], "bstart": nb, "bend": ne, "inlined": inlined})
+    for d in diffs[:3]:
+        ck.violation({"stage": "bracket", "mir": d["mir"], "mir_callee": d["callee_source"], "model_output": d["model (top,used,nontop,brackets)"],
+                      "impl_output": {"bstart": d["bstart"], "bend": d["bend"], "caller_after_link": d["library_caller_after_link"]}},
+                     what=f"inlined callee {d['callee']} ({'; '.join(d['callee_source'])[:200]}): the model of func_alloca_features asks for "
+                          f"{(d['model (top,used,nontop,brackets)'] or [0,0,0,'?'])[3]} bstart/bend pair(s) around the inlined body, MIR_link emitted "
+                          f"{d['bstart']} bstart / {d['bend']} bend — a variable-size (or late) alloca of the callee is never released")
+    return total, kinds, len(diffs)
+
+
 def corpus_stage(ck, exes, work, always):
     n = 0
     for mir in sorted(glob.glob(os.path.join(VERIF, "corpus", "C04", "*.mir"))):
@@ -453,6 +527,7 @@ def main():
     work = os.path.join(VERIF, ".cache", f"c04_{os.getpid()}")
     os.makedirs(work, exist_ok=True)
     try:
+        ck.lower_exe = lower_exe
         body(ck, quick, exes, lower_exe, work, always)
     finally:
         shutil.rmtree(work, ignore_errors=True)
@@ -470,6 +545,13 @@ def replay(ck, exes, work, always):
     else:
         rep = json.load(open(path))
         rep = rep.get("input", rep) if "mir" not in rep else rep
+        if rep.get("stage") == "bracket":
+            d = bracket_compare(ck.lower_exe, work, rep["mir"], always)
+            ck.sample({"replay": path, "differences": d})
+            ck.cov.update(evaluations=1, distinct_nontrivial=1, rule="replay of one saved callee/caller pair")
+            if d:
+                ck.violation({"stage": "replay", "file": path, "mir": rep["mir"]}, what=f"replayed pair still differs: {d[0]}")
+            return
         text = rep["mir"]
         calls = rep.get("calls")
         entries, args = rep.get("entries"), rep.get("args")
@@ -511,6 +593,8 @@ def body(ck, quick, exes, lower_exe, work, always):
     nunit = 5000 if quick else 100000
     diffs, nfun, kinds = unit_stage(ck, lower_exe, work, nunit, always)
     ck.stage("unit", functions=nfun, diffs=len(diffs))
+    nbr, brkinds, nbrdiff = bracket_stage(ck, lower_exe, work, 300 if quick else 3000, always)
+    ck.stage("bracket", pairs=nbr, diffs=nbrdiff)
     for fn, c, l, P in diffs[:3]:
         src = [x for x in P.funcs if x[0] == fn]
         ck.broken_ties.append({"kind": "correspondence", "name": "simplify_func model vs MIR_link output",
@@ -519,10 +603,16 @@ def body(ck, quick, exes, lower_exe, work, always):
     # ---- (b) whole programs
     nprog = 400 if quick else 10000
     progs = []
-    feat, gstats, shapes = {}, {}, {}
+    feat, gstats, shapes, stackk = {}, {}, {}, {}
     census = {}
     for k in range(nprog):
         kind = k % 4
+        if k % 50 == 7:
+            P, es = c04_gen.gen_stack_program(ck.rng, f"k{k}")
+            for s_, v in P.stats.items():
+                stackk[s_] = stackk.get(s_, 0) + v
+            progs.append((P, es, None, mirgen.ARGSETS[1:3]))
+            continue
         if kind == 3:
             P, es = c04_gen.gen_shape_program(ck.rng, f"s{k}")
             for s_, v in P.stats.items():
@@ -543,10 +633,11 @@ def body(ck, quick, exes, lower_exe, work, always):
             progs.append((P, es, g.sizes))
 
     def one(idx):
-        P, es, sizes = progs[idx]
+        P, es, sizes = progs[idx][:3]
+        argsets = progs[idx][3] if len(progs[idx]) > 3 else mirgen.ARGSETS
         text = P.text()
         lt = c04_gen.to_lean(P)
-        f, n = compare_program(exes, text, lt, es, mirgen.ARGSETS, work, f"p{idx}", always)
+        f, n = compare_program(exes, text, lt, es, argsets, work, f"p{idx}", always)
         cen = inlined_census(lower_exe, P, sizes, work, f"cen{idx}") if sizes else {}
         return idx, f, n, lt is not None, cen
     fails, nev, ncore = [], 0, 0
@@ -567,7 +658,7 @@ def body(ck, quick, exes, lower_exe, work, always):
     reported = 0
     for key, fl in classes.items():
         idx, f = fl[0]
-        P, es, _ = progs[idx]
+        P, es = progs[idx][:2]
         text = P.text()
         if reported < 3:
             try:
@@ -588,7 +679,7 @@ def body(ck, quick, exes, lower_exe, work, always):
                          what=(f"program {f['entry']} args {[hex(a) if isinstance(a, int) else a for a in f['args'][:4]]}: "
                                + "; ".join(f"{b}={v[:2]}" for b, v in f["views"].items()))[:600])
             reported += 1
-    ck.cov["evaluations"] = nev + ncorp + nfun + ngrid
+    ck.cov["evaluations"] = nev + ncorp + nfun + ngrid + nbr
     ck.cov["distinct_nontrivial"] = nprog + nfun
     ck.cov["programs"] = nprog
     ck.cov["unit_functions"] = nfun
@@ -598,8 +689,9 @@ def body(ck, quick, exes, lower_exe, work, always):
                       "with 1-3 call sites of feature helpers); each program runs with "
                       f"{len(mirgen.ARGSETS)} argument sets through builds {list(BUILDS)} x engines {ENGINES}, MirCore as written and MirCore on the "
                       "model-simplified program; results, the 576-byte buffer and the external-call log are compared")
-    ck.cov["distribution"] = {"unit_function_kinds": kinds, "c04_program_features": feat, "rewrite_shape_snippets": shapes, "mirgen_constructs": gstats,
+    ck.cov["distribution"] = {"unit_function_kinds": kinds, "c04_program_features": feat, "rewrite_shape_snippets": shapes, "stack_growth_loop_programs": stackk, "mirgen_constructs": gstats,
                               "programs_with_mircore_oracle": ncore, "corpus_evaluations": ncorp, "branch_grid": {"codes": grid_codes, "evaluations": ngrid},
+                              "bracket_unit_pairs": {"pairs": nbr, "callee_shapes": brkinds},
                               "threshold_census_default_build (callee size -> [`call` sites, `inline` sites, calls left after link])": census,
                               "failure_classes": len(classes), "round_always_variant": always}
     P, es = c04_gen.gen_c04_program(ck.rng, "sample")
